@@ -4,7 +4,7 @@ namespace SqlObjVerif.ConcX
 open SqlObjVerif.PyCache (Val Block Stmt Dict DictAttr Expr Cond dget dset ddel dhasKey)
 open SqlObjVerif.PyCache.Extracted
 open SqlObjVerif.PyCacheSS
-open SqlObjVerif.Conc (Id Obj Op Out K Pc State AInv holds aget aset adel akeys goto)
+open SqlObjVerif.Conc (Id Obj Op Out K Pc State AInv holds aget aset adel akeys goto finish entry)
 
 theorem dget_eq_aget (k : Nat) (l : Dict) : dget k l = aget l k := by
   induction l with
@@ -74,15 +74,168 @@ def Good (s : State) (t : Tid) (x : XTh) : Prop :=
     | none => False)
   | none => stepTh t (absG s) x = none
 
-theorem silentRun_succ (t : Tid) (n : Nat) (g : XShared) (th : XTh) :
-    silentRun t (n + 1) g th =
-      if parked t g th then some (th, g)
-      else match microX t g th with
+/-- stated for a thread given by its fields, so that `simp` does not unfold it on `finishX …` -/
+theorem silentRun_succ (t : Tid) (n : Nat) (g : XShared) (cpc : CPc) (m : MTh) (prog : List Op) (outs : List Out) :
+    silentRun t (n + 1) g ⟨cpc, m, prog, outs⟩ =
+      if parked t g ⟨cpc, m, prog, outs⟩ then some (⟨cpc, m, prog, outs⟩, g)
+      else match microX t g ⟨cpc, m, prog, outs⟩ with
         | some (th', g') => silentRun t n g' th'
         | none => none := rfl
 
 theorem silentRun_parked (t : Tid) (n : Nat) (g : XShared) (th : XTh) (h : parked t g th = true) :
     silentRun t n g th = some (th, g) := by
   cases n <;> simp [silentRun, h]
+
+
+/-! ## starting the next operation -/
+set_option hygiene false in
+/-- symbolic evaluation of the translated machine -/
+macro "xrun" "[" ts:Lean.Parser.Tactic.simpLemma,* "]" : tactic =>
+  `(tactic| simp [stepTh, accessX, microX, MTh.result, mk, nextAccess, pendingOf, micro, execStmt, doneStep, fin, unload, MTh.clr,
+      goRun, goDone, pushRun, viewSt, viewSelf, keepV, retained, putDict, setIntS,
+      G, GN, C, CN, EB, EF, AB, AF, CB, CF, getProg, putProg, finishPutProg, createdProg, expireProg, expireAllProg, cullProg,
+      cull_for0, cull_for1, expireAll_for0,
+      get_nlocals, get_nlists, put_nlocals, put_nlists, finishPut_nlocals, finishPut_nlists, created_nlocals, created_nlists,
+      expire_nlocals, expire_nlists, expireAll_nlocals, expireAll_nlists, cull_nlocals, cull_nlists, cull_nargs,
+      bdrop, bhead, sThen, sElse, sBody, sHandler, sOrelse, sFin,
+      stmtReadsCC, stmtDict, stmtWritesCC, exprReadsCC, exprDict, getOnly, condReadsCC, condDict,
+      PyCache.Expr.eval, PyCache.Cond.eval, PyCache.St.getVar, PyCache.St.getList, PyCache.Self.getDict, PyCache.Self.getInt,
+      PyCache.wrap, PyCache.unwrap, PyCache.Val.isNone, PyCache.strongRefs, PyCache.Cmp.holds,
+      dget_eq_aget, dhasKey_eq, ddel_eq_adel,
+      FUEL, silentRun_succ, parked, onReturn, park, enter, startOf, afterCachesX, MTh.start, MTh.idle, concOps, meths,
+      absG, absSh, $ts,*])
+
+/-- the thread parked at the first shared access of operation `op` -/
+def entryPark (dc c : Bool) (rest : List Op) (outs : List Out) : Op → XTh
+  | .get i =>
+    if c then
+      (if dc then { cpc := .inM (.get i), m := mk (.run G) [.seq .nil] [some (.key i), none] [], prog := rest, outs := outs }
+       else { cpc := .inM (.get i),
+              m := mk (.run (sBody (bhead GN))) [.tryKey (sHandler (bhead GN)) (sOrelse (bhead GN)), .seq (bdrop 1 GN), .seq .nil]
+                     [some (.key i), none] [], prog := rest, outs := outs })
+    else { cpc := .csGet (.get i), m := MTh.idle, prog := rest, outs := outs }
+  | .create i => { cpc := .insert i, m := MTh.idle, prog := rest, outs := outs }
+  | .expire i =>
+    if c then { cpc := .inM .unit, m := mk (.run expireProg) [] [some (.key i)] [], prog := rest, outs := outs }
+    else { cpc := .csGet (.expire i), m := MTh.idle, prog := rest, outs := outs }
+  | .expireAll =>
+    if dc then
+      (if c then { cpc := .inM .unit, m := mk (.run (bdrop 1 expireAllProg)) [] [none, none] [], prog := rest, outs := outs }
+       else { cpc := .csGet .expireAll, m := MTh.idle, prog := rest, outs := outs })
+    else { cpc := .eaEntry, m := MTh.idle, prog := rest, outs := outs }
+  | .cull => { cpc := .cuEntry, m := MTh.idle, prog := rest, outs := outs }
+
+theorem silentRun_entryX (t : Tid) (n : Nat) (g : XShared) (rest : List Op) (outs : List Out) (op : Op) :
+    silentRun t (n + 6) g (entryX g.sh.doCache g.caches { cpc := .idle, m := MTh.idle, prog := rest, outs := outs } op)
+      = some (entryPark g.sh.doCache g.caches rest outs op, g) := by
+  obtain ⟨sh, c, db, fresh⟩ := g
+  obtain ⟨cache, ec, cc, off, freq, frac, dc, owner, gen, hold, olds, heap⟩ := sh
+  cases op <;> cases c <;> cases dc <;> xrun [entryX, entryPark]
+
+def finPark (g : XShared) (x : XTh) (o : Out) : XTh :=
+  match x.prog with
+  | [] => { cpc := .idle, m := MTh.idle, prog := [], outs := x.outs ++ [o] }
+  | op :: rest => entryPark g.sh.doCache g.caches rest (x.outs ++ [o]) op
+
+theorem silentRun_finishX (t : Tid) (n : Nat) (g : XShared) (x : XTh) (o : Out) :
+    silentRun t (n + 6) g (finishX g x o) = some (finPark g x o, g) := by
+  unfold finishX finPark
+  cases x.prog with
+  | nil => exact silentRun_parked _ _ _ _ rfl
+  | cons op rest => exact silentRun_entryX t n g rest _ op
+
+theorem thsim_entryPark (dc c : Bool) (rest : List Op) (outs : List Out) (op : Op) :
+    ThSim dc { pc := entry dc c op, prog := rest, outs := outs } (entryPark dc c rest outs op) := by
+  cases op <;> cases c <;> cases dc <;>
+    exact ⟨rfl, rfl, by simp [entry, entryPark, PcSim, ccOK, csOK, ccCK, ccB, ccVs]⟩
+
+/-- the `ConcX` thread after `finishX` + its silent run corresponds to the `Conc` thread after `finish` -/
+theorem thsim_finPark (dc : Bool) (s : State) (t : Tid) (o : Out) (g : XShared) (x : XTh) (h0 : s.dc = dc)
+    (hdc : g.sh.doCache = s.dc)
+    (hc : g.caches = s.caches) (hp : x.prog = (s.th t).prog) (ho : x.outs = (s.th t).outs) :
+    ThSim dc ((finish s t o).th t) (finPark g x o) := by
+  subst h0
+  unfold finish finPark
+  rw [hp, ho, hdc, hc]
+  cases (s.th t).prog with
+  | nil => exact ⟨by simp, by simp, by simp [PcSim]⟩
+  | cons op rest =>
+    simp only [Conc.setTh_self]
+    exact thsim_entryPark _ _ _ _ _
+
+
+set_option hygiene false in
+/-- `xrun` that also knows how an operation ends and the next one starts -/
+macro "xstep" "[" ts:Lean.Parser.Tactic.simpLemma,* "]" : tactic =>
+  `(tactic| xrun [silentRun_finishX, Conc.releaseFinish, $ts,*])
+
+theorem offOf'_setTh (lock : Option Tid) (th : Tid → Conc.Th) (t : Tid) (v : Conc.Th) (off frac : Nat) (h : lock ≠ some t) :
+    offOf' lock (Conc.setTh th t v) off frac = offOf' lock th off frac := by
+  unfold offOf'
+  cases lock with
+  | none => rfl
+  | some u =>
+    have : u ≠ t := fun e => h (by rw [e])
+    simp [Conc.setTh, this]
+
+theorem offOf'_finish (lock : Option Tid) (s : State) (t : Tid) (o : Out) (off frac : Nat) (h : lock ≠ some t) :
+    offOf' lock (finish s t o).th off frac = offOf' lock s.th off frac := by
+  unfold finish
+  split <;> exact offOf'_setTh _ _ _ _ _ _ h
+
+theorem nonholder (s : State) (t : Tid) (ha : AInv s) (h : holds (s.th t).pc = false) : s.lock ≠ some t := by
+  intro hl
+  have := (ha.holder t).2 hl
+  rw [h] at this; cases this
+
+theorem orelease_none (olds : List (Nat × Dict × Nat)) (g : Nat) (h : Conc.oget olds g = none) :
+    Conc.orelease olds g = olds := by
+  induction olds with
+  | nil => rfl
+  | cons e r ih =>
+    obtain ⟨g', m, c⟩ := e
+    simp only [Conc.oget] at h
+    by_cases hg : g' = g
+    · simp [hg] at h
+    · simp only [hg, if_false] at h
+      simp [Conc.orelease, hg, ih h]
+
+set_option hygiene false in
+/-- the common start of the per-pc proofs: `hx : ThSim s.dc (s.th t) x`, `hpc : (s.th t).pc = …` -/
+macro "xintro" : tactic =>
+  `(tactic| (obtain ⟨hprog, houts, hp⟩ := hx
+             rw [hpc] at hp
+             simp only [PcSim] at hp
+             obtain ⟨cpc, m, prog, outs⟩ := x
+             simp only at hprog houts hp
+             subst hprog houts
+             unfold Good Conc.step
+             rw [hpc]
+             dsimp only))
+
+set_option hygiene false in
+/-- splits `offOf' … = offOf' … ∧ ThSim …` after a step to `goto … t pc'`, leaving the `PcSim` goal -/
+macro "xclose0" "[" ts:Lean.Parser.Tactic.simpLemma,* "]" : tactic =>
+  `(tactic| (try (refine And.intro (by first
+                                        | (simp only [goto, offOf'_setTh _ _ _ _ _ _ hnl]; done)
+                                        | simp [offOf', goto, Conc.setTh, $ts,*]) ?_)
+             refine ThSim.mk (by simp [goto, Conc.setTh]) (by simp [goto, Conc.setTh]) ?_))
+
+set_option hygiene false in
+/-- closes `offOf' … = offOf' … ∧ ThSim …` after a step to `goto … t pc'` -/
+macro "xclose" "[" ts:Lean.Parser.Tactic.simpLemma,* "]" : tactic =>
+  `(tactic| (xclose0 [$ts,*]
+             simp [goto, Conc.setTh, PcSim, mk, MTh.idle, ccB, ccCK, ccVs, ccOK, csOK, outerFs, outerOK, G, GN, C, CN, EB, EF, AB, AF, CB, CF,
+                 getProg, putProg, finishPutProg,
+                 createdProg, expireProg, expireAllProg, cullProg, cull_for0, cull_for1, expireAll_for0,
+                 bdrop, bhead, sThen, sElse, sBody, sHandler, sOrelse, sFin, $ts,*]))
+
+set_option hygiene false in
+/-- closes the goal after a step that ends the operation (`finish`) -/
+macro "xfin" "[" ts:Lean.Parser.Tactic.simpLemma,* "]" : tactic =>
+  `(tactic| first
+    | exact ⟨by first | (simp only [offOf'_finish _ _ _ _ _ _ hnl]) | simp [offOf', $ts,*],
+             thsim_finPark _ _ _ _ _ _ (by first | rfl | simp [*]) (by first | rfl | simp [*]) (by first | rfl | simp [*]) rfl rfl⟩
+    | exact thsim_finPark _ _ _ _ _ _ (by first | rfl | simp [*]) (by first | rfl | simp [*]) (by first | rfl | simp [*]) rfl rfl)
 
 end SqlObjVerif.ConcX
